@@ -14,7 +14,7 @@ NAN = E.NAN
 # ----------------------------------------------------------------------------
 
 class DType:
-    KINDS = {"int64": "i", "float64": "f", "bool": "b", "object": "O", "str": "O", "Int64": "i",
+    KINDS = {"int8": "i", "int16": "i", "int32": "i", "int64": "i", "float64": "f", "bool": "b", "object": "O", "str": "O", "Int64": "i",
              "Int16": "i", "Int32": "i", "interval": "O", "category": "O"}
 
     def __init__(self, name):
@@ -69,11 +69,13 @@ def norm_dtype(d):
         return d.name
     if isinstance(d, ExtDtype):
         return d.name
+    if d in ("int8", "int16", "int32"):
+        return d
     if isinstance(d, type) and d is not bool and issubclass(d, int):
         return "int64"
     if isinstance(d, type) and issubclass(d, float):
         return "float64"
-    if d is int or d in ("int", "int64", "i8", "int32", "int16", "int8", "uint64", "uint32"):
+    if d is int or d in ("int", "int64", "i8", "uint64", "uint32"):
         return "int64"
     if d is float or d in ("float", "float64", "f8", "float32"):
         return "float64"
@@ -112,6 +114,32 @@ def Int16Dtype():
 
 def StringDtype(*a, **k):
     return ExtDtype("str")
+
+
+INT_BITS = {"int8": 8, "int16": 16, "int32": 32}
+
+
+def wrap_int(v, dtype_name):
+    """two's-complement wrap of a concrete int into a narrow integer dtype (symbolic values are assumed in range)"""
+    bits = INT_BITS.get(dtype_name)
+    if bits is None or not isinstance(v, int) or isinstance(v, bool):
+        return v
+    m = 1 << bits
+    v = v % m
+    return v - m if v >= m // 2 else v
+
+
+def smallest_int_dtype(vals):
+    """dtype chosen by to_numeric(downcast='integer') for concrete ints (int64 when a value is symbolic)"""
+    lo = hi = 0
+    for v in vals:
+        if isinstance(v, bool) or not isinstance(v, int):
+            return "int64"
+        lo, hi = min(lo, v), max(hi, v)
+    for name, bits in INT_BITS.items():
+        if -(1 << (bits - 1)) <= lo and hi < (1 << (bits - 1)):
+            return name
+    return "int64"
 
 
 def is_na(v):
